@@ -1,9 +1,106 @@
 import TaurexModel.Proto
+import TaurexModel.Temperature
 
 namespace Taurex.Ops.C12
-open Taurex.Proto
+open Taurex.Proto Taurex.NpInterp Taurex.Temperature
 
-/-- operations of the C12 model served by `driver_c12` (filled in by the C12 check) -/
-def ops : List Op := []
+/-- outcome payload: `0 <list>` ok, `1` invalid model, `2` other exception -/
+def fOutcome {β : Type} (f : β → String) : Outcome β → String
+  | .ok v => "0 " ++ f v
+  | .invalid => "1"
+  | .error => "2"
+
+/-- `c12.interp xp fp xs` → list -/
+def interpOp (args : List String) : Option String :=
+  run (do
+    let xp ← listOf flt
+    let fp ← listOf flt
+    let xs ← listOf flt
+    pure (fList fF (xs.map (npInterp xp fp)))) args
+
+/-- `c12.linspace start stop n` → list -/
+def linspaceOp (args : List String) : Option String :=
+  run (do
+    let a ← flt
+    let b ← flt
+    let n ← nat
+    pure (fList fF (linspace a b n))) args
+
+/-- `c12.movavg a n` → list -/
+def movavgOp (args : List String) : Option String :=
+  run (do
+    let a ← listOf flt
+    let n ← nat
+    pure (fList fF (movingAverage a n))) args
+
+/-- `c12.oddwindow nlayers window` → nat -/
+def oddWindowOp (args : List String) : Option String :=
+  run (do
+    let n ← nat
+    let w ← flt
+    pure (fN (oddWindow n w))) args
+
+/-- `c12.iso T n` → list -/
+def isoOp (args : List String) : Option String :=
+  run (do
+    let t ← flt
+    let n ← nat
+    pure (fList fF (isothermal t n))) args
+
+/-- `c12.npoint Tsurf Ttop optPsurf optPtop tpoints ppoints window limit nlayers pressure` → outcome list -/
+def npointOp (args : List String) : Option String :=
+  run (do
+    let ts ← flt
+    let tt ← flt
+    let ps ← optOf flt
+    let pt ← optOf flt
+    let tp ← listOf flt
+    let pp ← listOf flt
+    let w ← flt
+    let lim ← flt
+    let n ← nat
+    let pr ← listOf flt
+    let q : NPointParams Float := ⟨ts, tt, ps, pt, tp, pp, w, lim⟩
+    pure (fOutcome (fList fF) (nPoint q n pr))) args
+
+/-- `c12.rodgers tlayers h optCov pressure` → list -/
+def rodgersOp (args : List String) : Option String :=
+  run (do
+    let t ← listOf flt
+    let h ← flt
+    let cov ← optOf (listOf (listOf flt))
+    let pr ← listOf flt
+    pure (fList fF (rodgers t h cov pr))) args
+
+/-- `c12.tarray tp optPp reverse nlayers pressure` → list -/
+def tarrayOp (args : List String) : Option String :=
+  run (do
+    let tp ← listOf flt
+    let pp ← optOf (listOf flt)
+    let rev ← bool
+    let n ← nat
+    let pr ← listOf flt
+    pure (fList fF (tempArray tp pp rev n pr))) args
+
+/-- `c12.guillot Tirr kir kv1 kv2 alpha Tint g pressure e21 e22` → outcome list -/
+def guillotOp (args : List String) : Option String :=
+  run (do
+    let tirr ← flt
+    let kir ← flt
+    let kv1 ← flt
+    let kv2 ← flt
+    let al ← flt
+    let tint ← flt
+    let g ← flt
+    let pr ← listOf flt
+    let e1 ← listOf flt
+    let e2 ← listOf flt
+    let q : GuillotParams Float := ⟨tirr, kir, kv1, kv2, al, tint⟩
+    pure (fOutcome (fList fF) (guillot q g pr e1 e2))) args
+
+def ops : List Op :=
+  [("c12.interp", interpOp), ("c12.linspace", linspaceOp), ("c12.movavg", movavgOp),
+   ("c12.oddwindow", oddWindowOp), ("c12.iso", isoOp), ("c12.npoint", npointOp),
+   ("c12.rodgers", rodgersOp), ("c12.tarray", tarrayOp), ("c12.guillot", guillotOp)]
 
 end Taurex.Ops.C12
